@@ -4,11 +4,36 @@ import (
 	"flag"
 	"fmt"
 	"os"
+	"runtime"
 	"sort"
 	"strings"
+	"time"
 )
 
+// memoryWatchdog aborts the process before a runaway symbolic execution exhausts the machine.
+func memoryWatchdog() {
+	limit := uint64(20) << 30
+	if v := os.Getenv("GOVC_MEM_GB"); v != "" {
+		var n uint64
+		if _, err := fmt.Sscanf(v, "%d", &n); err == nil && n > 0 {
+			limit = n << 30
+		}
+	}
+	go func() {
+		var ms runtime.MemStats
+		for {
+			time.Sleep(500 * time.Millisecond)
+			runtime.ReadMemStats(&ms)
+			if ms.HeapAlloc > limit {
+				fmt.Fprintf(os.Stderr, "govc: ABORTED: heap %d MiB exceeds the limit of %d MiB (a function under contract is outside what the engine can execute symbolically)\n", ms.HeapAlloc>>20, limit>>20)
+				os.Exit(4)
+			}
+		}
+	}()
+}
+
 func main() {
+	memoryWatchdog()
 	if len(os.Args) < 2 {
 		fmt.Fprintln(os.Stderr, "usage: govc verify|check ...")
 		os.Exit(2)
